@@ -2,6 +2,7 @@ package rules
 
 import (
 	"go/token"
+	"gverif/internal/load"
 	"sort"
 	"strings"
 
@@ -15,7 +16,8 @@ import (
 // the pattern leaves in place). Anything else is the universal language. `reads` collects the struct
 // fields whose value flows into the string.
 type strLangCtx struct {
-	kept  string // regex class of runes a ReplaceAllString keeps
+	subst map[*ssa.Parameter]ssa.Value // parameters of an inlined helper -> the caller's arguments
+	kept  string                       // regex class of runes a ReplaceAllString keeps
 	reads map[string]bool
 	exact bool // false as soon as an unknown constructor was over-approximated by .*
 }
@@ -26,6 +28,10 @@ func (c *strLangCtx) lang(v ssa.Value, depth int) string {
 		return `(?s:.*)`
 	}
 	switch x := v.(type) {
+	case *ssa.Parameter:
+		if a, ok := c.subst[x]; ok {
+			return c.lang(a, depth+1)
+		}
 	case *ssa.Const:
 		if s, ok := constString(x); ok {
 			return rxQuote(s)
@@ -118,6 +124,25 @@ func (c *strLangCtx) lang(v ssa.Value, depth int) string {
 				}
 			}
 			return b.String()
+		case x.Call.StaticCallee() != nil && load.Current != nil && load.Current.InModule(x.Call.StaticCallee()) && isStringType(x.Type()):
+			// a helper of the module that builds the string: its single returned expression, with the
+			// parameters replaced by the arguments
+			g := x.Call.StaticCallee()
+			var rets []ssa.Value
+			for _, b := range g.Blocks {
+				if ret, ok := b.Instrs[len(b.Instrs)-1].(*ssa.Return); ok && b != g.Recover && len(ret.Results) == 1 {
+					rets = append(rets, ret.Results[0])
+				}
+			}
+			if len(rets) == 1 && len(g.Params) == len(args) {
+				if c.subst == nil {
+					c.subst = map[*ssa.Parameter]ssa.Value{}
+				}
+				for i, p := range g.Params {
+					c.subst[p] = args[i]
+				}
+				return c.lang(rets[0], depth+1)
+			}
 		case strings.HasSuffix(name, "Regexp).ReplaceAllString") && strings.HasPrefix(name, "regexp.") && len(args) == 3 && c.kept != "":
 			if repl, ok := constString(args[2]); ok && !strings.Contains(repl, "$") {
 				c.lang(args[1], depth+1)
